@@ -315,6 +315,19 @@ fn check(c: &Case, obs: &mut Obs) -> Result<(), String> {
         definite |= ans.is_some();
         judge("equal_graph_with_options", ans, up, &t, obs)?;
     }
+    // the shorthands (documented as the up-to-global-phase question) and the arity tests
+    let ans = guarded("equal_circuit", || eq::equal_circuit(&qa, &qb))?;
+    judge("equal_circuit", ans, true, &t, obs)?;
+    let ans = guarded("equal_graph", || eq::equal_graph(&ga, &gb))?;
+    judge("equal_graph", ans, true, &t, obs)?;
+    let d1 = guarded("equal_circuit_dim", || eq::equal_circuit_dim(&qa, &qb))?;
+    let d2 = guarded("equal_graph_dim", || eq::equal_graph_dim(&ga, &gb))?;
+    if d1 != t.same_arity || d2 != t.same_arity {
+        return Err(format!(
+            "equal_circuit_dim = {d1}, equal_graph_dim = {d2}, but the qubit counts are {} and {}",
+            a.n, b.n
+        ));
+    }
     if definite && !syntactically_identical {
         obs.nontrivial();
     }
@@ -382,7 +395,7 @@ pub fn def(ctx: &Ctx) -> PropertyDef {
     };
     PropertyDef {
         id: "C12",
-        rule: "pairs of unitary circuits: independent; equal by construction (copy, re-extraction, inserted cancelling pair, commuted disjoint gates, basic-gate expansion, swap as three CNOTs); differing by one gate, by a global phase -1 (XZXZ), by a global phase e^{i pi/2^k} with k = 17..26 (4.7e-8 .. 2.4e-5 rad; float truth is definite for differences above 3e-8 and below 1e-10, in between the pair is skipped as borderline), by a Hadamard on a wire, by a wire permutation, by arity. Truth from the harness simulator (exact equality and equality up to a scalar). equal_circuit_with_options / equal_graph_with_options (graphs optionally pre-simplified) with and without global phase: Some(true) => truth, Some(false) => not equal (or arities differ), None always allowed and counted; equal_circuit_tensor / equal_graph_tensor <=> identical tensors (exact phases). Non-trivial = a definite answer on a pair that is not syntactically identical. Distinct by hash of the case.",
+        rule: "pairs of unitary circuits: independent; equal by construction (copy, re-extraction, inserted cancelling pair, commuted disjoint gates, basic-gate expansion, swap as three CNOTs); differing by one gate, by a global phase -1 (XZXZ), by a global phase e^{i pi/2^k} with k = 17..26 (4.7e-8 .. 2.4e-5 rad; float truth is definite for differences above 3e-8 and below 1e-10, in between the pair is skipped as borderline), by a Hadamard on a wire, by a wire permutation, by arity. Truth from the harness simulator (exact equality and equality up to a scalar). equal_circuit_with_options / equal_graph_with_options (graphs optionally pre-simplified) with and without global phase, the shorthands equal_circuit / equal_graph (= up to global phase) and equal_*_dim: Some(true) => truth, Some(false) => not equal (or arities differ), None always allowed and counted; equal_circuit_tensor / equal_graph_tensor <=> identical tensors (exact phases). Non-trivial = a definite answer on a pair that is not syntactically identical. Distinct by hash of the case.",
         assumptions: vec![
             "harness simulator (see selftest)",
             "float pairs whose equality flips between tolerance 1e-10 and 1e-5 are skipped as borderline",
